@@ -64,6 +64,10 @@ def tasks(tier):
                     hist(kind, "sync", True, s0, first)
                     hist(kind, "sync", False, s0, first)
                 hist("A", "sync", True, s0, first, allow=True)
+    # guards that are data attributes (properties) of the machine, the model or a listener and fail when they are read
+    for engine in ("sync", "async"):
+        for prov in ("machine", "model", "listener"):
+            out.append({"kind": "property-guard", "engine": engine, "provider": prov})
     if quick:
         # second template (C01's T-guards machine), one fault anywhere, then a follow-up
         for s0 in (1,):
@@ -91,12 +95,12 @@ BOUNDS = {
     "quick": "T-chain template. Scenario A: first call (event fixed per task) with either a raise, or a nested send {go,hop} optionally "
     "followed by a raise, each placed at any callback invocation (validator, guards, the 5 generic action callbacks; first, nested or queued "
     "transition; initial enter callback in the from-construction scenario), then an action-free follow-up call (go). Scenario C: two nested sends {go,hop} from the first event's own callbacks, then a follow-up. Scenario X: a BaseException (cancellation-like) raised at any invocation, then a follow-up. Scenario U: one nested send of an undeclared event name. Scenario B: two "
-    "consecutive calls that may each raise at any invocation, then an action-free call. A second template (C01's T-guards machine) with one fault anywhere and a follow-up. Engines sync rtc (all pre-states, also "
+    "consecutive calls that may each raise at any invocation, then an action-free call. A second template (C01's T-guards machine) with one fault anywhere and a follow-up. Guards given as names of properties on machine / model / listener whose getter raises one of {RuntimeError, an AttributeError subclass, a KeyError subclass, a StopIteration subclass, TypeError} (sync and async engine). Engines sync rtc (all pre-states, also "
     "allow_event_without_transition), sync non-rtc (pre-states a, c), all-async (pre-state a; construction).",
     "thorough": "scenario A also on a second template (C01's T-guards machine: final state, three candidates, multi-event, internal, expression guard); two follow-up calls, follow-up events {go,hop,tick}, a listener adding 3 more callbacks per transition, all pre-states on every engine.",
 }
 OUTSIDE = "what happens to *queued* events when the failure is a BaseException (the engine deliberately clears the queue for Exception only; scenario X raises one without anything queued and only requires propagation, the state rule and a usable machine); more than 3 faults/sends per history; callbacks abandoned by a failed asyncio.gather may finish later (tolerated, see DESIGN 3.2 tolerance 3)"
-OBLIGATIONS = ["failed-call:Boom", "failed-call:TNA", "call-after-failure", "nested-send", "queued-event-ran", "from-construction"]
+OBLIGATIONS = ["property-guard-raised", "property-guard-decides", "failed-call:Boom", "failed-call:TNA", "call-after-failure", "nested-send", "queued-event-ran", "from-construction"]
 ASSUMPTIONS = [
     "state after a failure: source for faults in validators/conditions/before/exit/on, target for enter/after (the acceptor tracks the phase of the observed raise)",
     "rtc=False: a failing nested event aborts the enclosing transition at the callback that sent it; the state is whatever the innermost failure left",
@@ -104,7 +108,132 @@ ASSUMPTIONS = [
 ]
 
 
+class _AttrBoom(AttributeError):
+    pass
+
+
+class _KeyBoom(KeyError):
+    pass
+
+
+class _StopBoom(StopIteration):
+    pass
+
+
+EXC_KINDS = [RuntimeError, _AttrBoom, _KeyBoom, _StopBoom, TypeError]
+
+
+def run_property_guard(ctx, params):
+    """`cond="ready"` / `unless="blocked"` where the names are properties: reading them may raise - whatever the class of
+    the exception (an AttributeError raised *inside* the getter is not 'the attribute does not exist')."""
+    import asyncio
+
+    from statemachine import State, StateMachine
+
+    from vfw.ctx import Mismatch
+
+    prov = params["provider"]
+    is_async = params["engine"] == "async"
+    with ctx.notracing():
+        box = {"armed": None, "exc": None, "vals": {"ready": True, "blocked": False}, "reads": []}
+
+        def mk(name):
+            def getter(self):
+                box["reads"].append(name)
+                if box["armed"] == name:
+                    box["exc"] = box["cls"](f"reading {name}")
+                    raise box["exc"]
+                return box["vals"][name]
+
+            return property(getter)
+
+        attrs = {}
+        a, b = State(initial=True), State()
+        attrs.update(a=a, b=b, go=a.to(b, cond="ready"), back=b.to(a, unless="blocked"))
+        entered = []
+        if is_async:
+            async def on_enter_state(self, state):
+                entered.append(state.id)
+        else:
+            def on_enter_state(self, state):
+                entered.append(state.id)
+        attrs["on_enter_state"] = on_enter_state
+        holder = {"ready": mk("ready"), "blocked": mk("blocked")}
+        if prov == "machine":
+            attrs.update(holder)
+        cls = type(StateMachine)("C04P", (StateMachine,), attrs)
+        Other = type("Holder", (), dict(holder, state=None))
+        if prov == "machine":
+            sm = cls()
+        elif prov == "model":
+            sm = cls(Other())
+        else:
+            sm = cls(listeners=[Other()])
+        if is_async:
+            async def _act():
+                await sm.activate_initial_state()
+
+            asyncio.run(_act())
+    start = ["a", "b"][ctx.choose(2, "start")]
+    if start == "b":
+        with ctx.notracing():
+            sm.current_state_value = "b"
+    ev, gname = ("go", "ready") if start == "a" else ("back", "blocked")
+    armed = ctx.choose(2, "armed") == 1
+    # (a StopIteration leaving a coroutine is turned into RuntimeError by Python itself, PEP 479: not offered on the async engine)
+    kinds = [k for k in EXC_KINDS if not (is_async and k is _StopBoom)]
+    box["cls"] = kinds[ctx.choose(len(kinds), "exc-class")] if armed else None
+    box["armed"] = gname if armed else None
+    val = ctx.sym_bool("guard-value")
+    box["vals"][gname] = val
+
+    def send(event):
+        if is_async:
+            async def go():
+                return await sm.send(event)
+
+            return asyncio.run(go())
+        return sm.send(event)
+
+    def passes():
+        v = True if box["vals"][gname] else False
+        return v if gname == "ready" else not v
+
+    tag = f"{params['engine']}:{prov}"
+    other = "b" if start == "a" else "a"
+    del box["reads"][:]
+    try:
+        send(ev)
+        got = ("ret",)
+    except sm.TransitionNotAllowed:
+        got = ("tna",)
+    except Exception as e:  # noqa: BLE001
+        got = ("exc", e)
+    except BaseException as e:  # noqa: BLE001 - StopIteration subclasses are Exceptions; anything else is the tracer's
+        raise
+    if armed:
+        if got[0] != "exc" or got[1] is not box["exc"]:
+            raise Mismatch(f"guard-exception-swallowed:{tag}", f"reading the guard attribute `{gname}` raised {box['cls'].__mro__[1].__name__}; send('{ev}') "
+                           f"{'returned' if got[0] == 'ret' else 'raised TransitionNotAllowed' if got[0] == 'tna' else 'raised ' + repr(got[1])}; state {sm.current_state.id}")
+        if sm.current_state.id != start:
+            raise Mismatch(f"state-changed-by-failed-guard:{tag}", f"in {sm.current_state.id}")
+        ctx.cover("property-guard-raised")
+        box["armed"] = None
+        try:
+            send(ev)
+            got = ("ret",)
+        except sm.TransitionNotAllowed:
+            got = ("tna",)
+        ctx.cover("call-after-failure")
+    want = ("ret",) if passes() else ("tna",)
+    if got != want or sm.current_state.id != (other if passes() else start):
+        raise Mismatch(f"property-guard-wrong:{tag}", f"{gname}={box['vals'][gname]!r}: send('{ev}') {got[0]}, state {sm.current_state.id}")
+    ctx.cover("property-guard-decides")
+
+
 def run(ctx, params):
+    if params.get("kind") == "property-guard":
+        return run_property_guard(ctx, params)
     names = params.get("event_names", EVENTS)
     first = names[params["first"]]
     script_kw = {"budget": params["call_budgets"][0], "actions": tuple(params["actions"]), "send_events": tuple(params["send_events"]),
